@@ -219,6 +219,9 @@ fn main() {
         "pure" => {
             mdwh::pure::run(args.random, args.seed, &mut tr);
         }
+        "sover" => {
+            mdwh::pure::sover(args.input.as_deref().unwrap_or(""), &mut tr);
+        }
         "flood" => {
             let workdir = flag_str(&args.extra, "--workdir").unwrap_or_else(|| "/tmp".into());
             let rounds = flag_val(&args.extra, "--rounds").unwrap_or(1);
